@@ -173,8 +173,13 @@ def gen_tz(rng):
     if r < 0.87:
         h = rng.choice((1, 5, 8, 11))
         return dt.timezone(-dt.timedelta(hours=h)), "minus-whole"
-    h = rng.choice((5, 9, -3))
-    return dt.timezone(dt.timedelta(hours=h, minutes=30)), "half-hour"
+    if r < 0.96:
+        h = rng.choice((5, 9, -3))
+        return dt.timezone(dt.timedelta(hours=h, minutes=30)), "half-hour"
+    # an offset with a seconds part (legal in Python, in no dialect)
+    return dt.timezone(rng.choice((1, -1)) * dt.timedelta(
+        hours=rng.choice((0, 5)), minutes=rng.choice((0, 30)),
+        seconds=rng.choice((15, 30, 59)))), "offset-with-seconds"
 
 
 def gen_us(rng):
@@ -206,6 +211,8 @@ def temporal_rep(dialect, kind, tzc, usc, yc):
         pass  # 4-digit years are representable in every dialect
     if kind == "date":
         return True
+    if tzc == "offset-with-seconds":
+        return False
     if dialect in ("PVL", "ISIS"):
         # no zone syntax besides 'Z': only UTC (or naive, read back as UTC)
         return tzc in ("naive", "utc")
@@ -346,6 +353,10 @@ def gen_set(rng, dialect, width, Quantity, depth=0):
         if r < 0.12 and depth < 2 and dialect in ("PVL", "ISIS"):
             sub = gen_set(rng, dialect, width, Quantity, depth + 1)
             sub = Leaf(frozenset(sub.value), sub.cls, sub.rep)
+        elif r < 0.05 and depth < 1:
+            # ODL / PDS3: a set inside a set is not a scalar - must be refused
+            sub = gen_set(rng, dialect, width, Quantity, depth + 1)
+            sub = Leaf(frozenset(sub.value), "set-inside-set", False)
         elif r < 0.2 and dialect in ("PVL", "ISIS"):
             sub = gen_quantity(rng, dialect, width, Quantity)
             if isinstance(sub.value.value, list):
